@@ -39,7 +39,11 @@ DECIDED = {
             "panic/unreachable, unwinding assertions) on every function of the anchored paths that has unsafe code, indexing, slicing or "
             "integer subtraction, run on arbitrary input of bounded size. Bounded stack is decided inductively: for the parser "
             "(m_skip_one_dispatch_n7: nested! hands the nested skipper d-1, restores d, rejects at d == 1 without recursing) and for "
-            "every container entry of the serde deserializer (m_depth_*), one step for all budgets d => nesting <= 254 for every input."),
+            "every container entry of the serde deserializer (m_depth_*), one step for all budgets d => nesting <= 254 for every input. "
+            "(thorough) The dev-profile assertions of the number pipeline - overflow, shift and index checks in parse_number, "
+            "parse_number_fraction, parse_exponent, parse_float, parse_float_fast, parse_floating_normal_fast and Eisel-Lemire - are shown "
+            "unreachable by the SMT runs for every digit value of 40996 literal shapes and every significand at every decimal exponent "
+            "-345..345, with one exception that neither solver decides (`add + 1` in parse_floating_normal_fast, listed outside)."),
     "C02": ("Differential harnesses real scanner vs. RFC 8259 reference recogniser: Ok <=> the reference accepts, and the consumed length "
             "equals the reference's - strings (scalar path on all buffers <= 8; block path by window in the thorough tier), numbers (validating "
             "skipper on all buffers <= 5/6/8 and across a 32-byte chunk edge; fully-parsing scanner <= 7), literals, colon, trailing characters, "
@@ -130,7 +134,9 @@ DECIDED = {
 }
 
 OUTSIDE = {
-    "C01": ["leaks in general (only the C18 ledger counts references)", "parse_string_inplace and the sufficiency of the 64-byte padding "
+    "C01": ["the dev-profile overflow assertion at `add + 1` in parse_floating_normal_fast (lo + hi2 == u64::MAX while the low nine bits of hi "
+            "are all equal): undecided by z3 and cvc5; a continued-fraction search over all table entries found no significand that reaches "
+            "it; release builds wrap there by design", "leaks in general (only the C18 ledger counts references)", "parse_string_inplace and the sufficiency of the 64-byte padding "
             "(symbolic execution does not terminate on its pointer->integer cursor arithmetic)", "the copying decoder's Vec traffic "
             "(parse_string_escaped)", "DocumentVisitor / arena node buffer (did not fit)", "PointerTree walkers (get_many, get_by_schema)",
             "carriers Bytes/FastStr/String, from_reader", "the release-only over-read branch of format_string's tail (covered only by "
